@@ -694,7 +694,15 @@ def run():
             if done["fork"] and done["acc"]:
                 break
         if not (done.get("fork") and done.get("acc")):
-            raise vf.NoVerdict("binding self-test (T): nothing to corrupt in the recorded traces")
+            if not bad:
+                raise vf.NoVerdict("binding self-test (T): nothing to corrupt in the recorded traces")
+            # every recorded process was rejected: the self-test runs on a hand-written accepted run instead
+            ev = lambda e, g, t=0, f="", l=False, x=False, s_=False, n=0, h=(): {
+                "run": 1, "e": e, "g": g, "n": n, "t": t, "w": x, "l": l, "x": x, "s": s_, "f": f, "h": [list(c) for c in h]}
+            cor = [ev("reset", 0), ev("acc", 1, 2, "Create", h=[[[2, 0], [1, 1]]]),
+                   ev("fork", 1, n=1, h=[[[2, 0], [1, 1]]]), ev("start", 7, h=[[[3, 0], [1, 1]]]),
+                   ev("acc", 7, 2, "Get", l=True, s_=True), ev("acc", 1, 2, "Set", s_=True)]
+            done = {"fork": 3, "acc": 2}
         cp = vf.write_ndjson(os.path.join(sd, "corrupt.ndjson"), cor)
         rc_ = vf.tlc(SPEC, "SharedTables_Trace", "SharedTables_Trace.cfg", sd, workers=1, files={"trace.ndjson": cp}, timeout=3000)
         rep = [x for x in rc_.records if isinstance(x, dict) and "bad" in x]
